@@ -106,6 +106,10 @@ impl MolecularShape2 {
 
     fn circle_overlap(a1: &Atom2, a2: &Atom2) -> f64 {
         let distance = nalgebra::distance(&a1.position, &a2.position);
+        // One circle lies within the other, the overlap is the whole of the smaller circle
+        if distance <= f64::abs(a1.radius - a2.radius) {
+            return PI * f64::min(a1.radius, a2.radius).powi(2);
+        }
         // There is some overlap between the circles which needs to be calculated
         if distance < a1.radius + a2.radius {
             let d1 = (distance.powi(2) + a1.radius.powi(2) - a2.radius.powi(2)) / (2. * distance);
